@@ -332,9 +332,9 @@ fn num(v: i64, style: u64) -> String {
     if v >= 0 && style % 16 == 9 {
         format!("{}.0", v)                      // NR2 / NR3 spellings of the same integer
     } else if v >= 0 && style % 16 == 13 {
-        format!("{}E0", v)
+        if (style / 16) % 2 == 1 { format!("{}E+0", v) } else { format!("{}E0", v) }   // explicit exponent sign (C15w8-1)
     } else if v > 0 && v % 10 == 0 && style % 16 == 1 {
-        format!("{}E1", v / 10)
+        if (style / 16) % 2 == 1 { format!("{}E+1", v / 10) } else { format!("{}E1", v / 10) }
     } else if v >= 0 && style % 4 == 3 {
         format!("#H{:X}", v)
     } else if v >= 0 && style % 8 == 5 {
